@@ -874,7 +874,8 @@ impl Version {
             let this_level = &self.levels[level];
             let mut to_add = vec![];
             // TODO(rescrv): Make this efficient now that it's correct.
-            for sst in this_level.ssts.iter() {
+            // NOTE(rescrv): Walk the level backwards so that may_join knows about the next sibling.
+            for (idx, sst) in this_level.ssts.iter().enumerate().rev() {
                 let num_inputs = compaction.inputs.len() + to_add.len();
                 if num_inputs > self.options.max_compaction_files
                     || num_inputs > self.options.max_open_files
@@ -884,6 +885,7 @@ impl Version {
                 if first_key <= sst.first_key.as_slice()
                     && sst.last_key.as_slice() <= last_key
                     && !compaction.inputs.contains(&Setsum::from_digest(sst.setsum))
+                    && self.may_join(compaction, &to_add, level, idx)
                 {
                     to_add.push(sst);
                 }
@@ -907,6 +909,36 @@ impl Version {
                 compaction.inputs.append(&mut to_add);
             }
         }
+    }
+
+    // A file may join a compaction only if the older versions of its keys come along:  everything
+    // it overlaps between its own level and the compaction's upper level, and the next file of its
+    // own level when the two share their boundary key.  Otherwise the file's data would be
+    // written beneath older data that stays behind.
+    fn may_join(
+        &self,
+        compaction: &CompactionCore,
+        to_add: &[&Arc<SstMetadata>],
+        level: usize,
+        idx: usize,
+    ) -> bool {
+        let sst = &self.levels[level].ssts[idx];
+        let is_input = |other: &Arc<SstMetadata>| {
+            compaction
+                .inputs
+                .contains(&Setsum::from_digest(other.setsum))
+                || to_add.iter().any(|x| x.setsum == other.setsum)
+        };
+        let deeper = self.levels[level + 1..=compaction.upper_level]
+            .iter()
+            .flat_map(|deeper| deeper.ssts.iter())
+            .filter(|other| other.first_key <= sst.last_key && sst.first_key <= other.last_key)
+            .all(is_input);
+        let sibling = match self.levels[level].ssts.get(idx + 1) {
+            Some(next) if level > 0 && next.first_key == sst.last_key => is_input(next),
+            _ => true,
+        };
+        deeper && sibling
     }
 
     fn may_choose_compaction(&self, core: &CompactionCore) -> bool {
